@@ -39,6 +39,7 @@ impl Check for C03 {
                 let payload = bytes_of_len(ctx, lp);
                 let n = 1 + ctx.rng.below(4);
                 c03_case(ctx, &body, &signer, &aad, &payload, n);
+                built_then_edited_case(ctx, "Sig_structure", &body, &aad, &payload);
                 ctx.sample(|| J::obj(vec![("body_protected", J::Str(format!("{:?}", body.bytes.as_ref().map(|b| crate::rcbor::hex(b))))), ("aad_len", J::UInt(la as u64)), ("payload_len", J::UInt(lp as u64)), ("signers", J::UInt(n as u64)), ("outcome", J::s("all helper outputs equal the RFC 8152 Sig_structure"))]));
             }
             1 => {
